@@ -4,7 +4,11 @@
    so the grammar itself is checked; the byte-level codecs are C19. Record ids and info bytes are K_BYTE tokens. */
 #include "harness.h"
 #include "prologue.h"
+#ifdef REAL
+#define VF_CAP 400     /* the byte rendering of the token stream */
+#else
 #define VF_CAP 32
+#endif
 #include "vfile.h"
 #define ZSTUB_INFLATE
 #include "zstub.h"
@@ -12,6 +16,8 @@
 #include "oastok.h"
 #include "gds_read.h"
 #include "oas_ref.h"
+#define PV_U64(v) (*(uint64_t*)&(v)->f1)
+#define PV_BYTES(v) (*(uint8_t**)((uint8_t*)&(v)->f1 + 8))
 #define READ_OAS _ZN5gdstk8read_oasEPKcddPNS_9ErrorCodeE
 #ifndef LIM
 #define LIM (1 << 20)
@@ -52,6 +58,15 @@ int main(void) {
                         in the specification and read as one raw byte by gdstk: the same byte for every defined type, so the token is a byte */
   int use_h = CT < 16 || CT == 20 || CT == 21 || CT == 24, use_w = CT != 20 && CT != 21;
   B(26); B((uint8_t)(0x9B | (use_w ? 0x40 : 0) | (use_h ? 0x20 : 0))); U(layer); U(dtype); B(CT); if (use_w) U(w); if (use_h) U(h); I(x); I(y);
+#elif ELEM == 7      /* RECTANGLE with two PROPERTY records: the first names the property inline ("p") and carries an explicit value list
+                        [unsigned integer v, reference to PROPSTRING 0 (type 13 + STRREF)]; the second re-uses name and value list from the modal
+                        variables - as PROPERTY with V = 1, C = 0 (PREC = 28) or as LAST_PROPERTY (PREC = 29). PROPSTRING 0 ("q") is defined
+                        afterwards (implicit numbering), so the reference is resolved at END. The real values mix: the genuine integer stays one. */
+  uint64_t pv = nd_u64();
+  B(20); B(0x7B); U(layer); U(dtype); U(w); U(h); I(x); I(y);
+  B(28); B(0x24); STR1('p'); B(8); U(pv); B(13 + STRREF); U(0);
+  B(PREC); if (PREC == 28) B(0x08);
+  B(9); STR1('q');
 #endif
   B(2);                /* END */
   uint8_t fname[2] = {'f', 0}; uint32_t err = 0; Lib lib = {0};
@@ -79,6 +94,17 @@ int main(void) {
     CHECK(r->f0 == 0 && *(Cell**)&r->f1 == lib_cell(&lib, 1) && lib_cell(&lib, 1)->f0[0] == 'D', "placement by name resolved to the cell defined later");
     CHECK(VXD(r->f2) == (double)x && VYD(r->f2) == (double)y && r->f4 == 1.0 && (r->f5 & 1) == refl, "origin, unit magnification, reflection bit");
     CHECK(r->f3 == (RC == 0 ? 0.0 : RC == 1 ? 3.14159265358979323846 * 0.5 : RC == 2 ? 3.14159265358979323846 : 3.14159265358979323846 * 1.5), "rotation code: 0 / 90 / 180 / 270 degrees"); }
+#elif ELEM == 7
+  { CHECK(c->f1.f1 == 1, "one polygon"); Poly* p = ((Poly**)c->f1.f2)[0];
+    struct S_struct_gdstk__Property* pr = p->f3; int np = 0;
+    for (int k = 0; k < 3; k++) if (pr) { np++;
+      CHECK(pr->f0 && pr->f0[0] == 'p' && pr->f0[1] == 0, "property name (inline string; re-used from the modal variable by the second record)");
+      struct S_struct_gdstk__PropertyValue* v0 = pr->f1; CHECK(v0 != 0, "first value present");
+      if (v0) { CHECK(v0->f0 == 0 && PV_U64(v0) == pv, "first value: the unsigned integer, still an unsigned integer after the string references were resolved");
+        struct S_struct_gdstk__PropertyValue* v1 = v0->f2; CHECK(v1 != 0, "second value present");
+        if (v1) { CHECK(v1->f0 == 3 && PV_U64(v1) == 1 && PV_BYTES(v1) && PV_BYTES(v1)[0] == 'q', "second value: the referenced PROPSTRING, resolved at END"); CHECK(v1->f2 == 0, "exactly two values, in file order"); } }
+      pr = pr->f2; }
+    CHECK(np == 2 && pr == 0, "two properties on the element"); }
 #elif ELEM == 5 || ELEM == 6
   { CHECK(c->f1.f1 == 1, "one polygon"); Poly* p = ((Poly**)c->f1.f2)[0]; double* q = (double*)p->f1.f2;
     int64_t rx[4], ry[4], gx[4], gy[4];
